@@ -128,8 +128,11 @@ def run_walk(rng, name, cfg, objs, focus, n_agents, n_steps, perturb, resets, se
                 return wk
             views.append(gs)
         ep_first = {ag: WL.impl_view(views[ag]) for ag in range(n_agents)}
+        # what each agent was last TOLD (a snapshot taken when the view was returned): "previous view" of C02/C03
+        told = {ag: copy.deepcopy(WL.impl_view(views[ag])) for ag in range(n_agents)}
         exfiltrated = {}     # node -> data put there by exfiltration in this episode (C11_exists)
         probe = None
+        forced = []          # scripted (agent, action generator) pairs, consumed before random generation
         for stepno in range(n_steps):
             # ---- reset?
             if resets and stepno > 0 and stepno % resets == 0:
@@ -151,18 +154,51 @@ def run_walk(rng, name, cfg, objs, focus, n_agents, n_steps, perturb, resets, se
                         return wk
                     views[ag] = gs
                     ep_first[ag] = WL.impl_view(gs)
+                    told[ag] = copy.deepcopy(WL.impl_view(gs))
             ag = rng.randrange(n_agents)
             T = WL.impl_tables(g)
-            v = WL.impl_view(views[ag])
+            forced_fn = None
+            if shared and n_agents >= 2:
+                if not forced and rng.random() < 0.12:
+                    # a scripted interaction of two agents on shared hosts: B learns a datum on Y, A inspects X for the first time,
+                    # B exfiltrates the datum into X, A acts again (what B did must reach A only through the world)
+                    A, B = rng.sample(range(n_agents), 2)
+                    both = sorted(set(WL.impl_view(views[A])["ctrl"]) & set(WL.impl_view(views[B])["ctrl"]))
+                    with_d = [i for i in both if T["data"].get(T["ip2host"].get(i))]
+                    if len(with_d) >= 1 and len(both) >= 2:
+                        Y = rng.choice(with_d)
+                        X = rng.choice([i for i in both if i != Y])
+                        def exfil(T_, v_, Y=Y, X=X):
+                            ds = sorted(v_["data"].get(Y, set()))
+                            return {"type": "ExfiltrateData", "src": Y, "tgt": X, "data": rng.choice(ds)} if ds else None
+                        forced.extend([(B, lambda T_, v_, Y=Y: {"type": "FindData", "src": Y, "tgt": Y}),
+                                       (A, lambda T_, v_, X=X: {"type": "FindData", "src": X, "tgt": X}),
+                                       (B, exfil),
+                                       (A, lambda T_, v_, X=X: {"type": "FindData", "src": X, "tgt": X} if rng.random() < 0.5 else
+                                                               {"type": "ScanNetwork", "src": X, "net": rng.choice(sorted(T_["nets"]))} if T_["nets"] else None)])
+                        wk.count("scripted_interactions")
+                if forced:
+                    ag, forced_fn = forced.pop(0)
+            v_live = WL.impl_view(views[ag])
+            v = told[ag]
+            if v_live != v:
+                # the stored view is no longer what the agent was told: somebody's action reached into it; the next result can
+                # then not be "previous view plus the documented effect" (C03/C02), and a returned view was modified (C11)
+                wk.hits.append(("C03", "previous view changed behind the agent", f"the view agent {ag} was last given changed before its next action (another action reached into it)",
+                                {"kind": "walk", "scenario": name, "history": list(history), "agent": ag}))
+                v = told[ag] = copy.deepcopy(v_live)
             perturbed = False
-            if perturb and rng.random() < perturb:
+            if perturb and forced_fn is None and rng.random() < perturb:
                 v = WR.perturb_view(rng, T, v)
                 views[ag] = WL.to_gamestate(v)
+                told[ag] = copy.deepcopy(v)
                 wk.ops.append((f"OSetView {ag} {WL.view_term(v, I)}", "setview", "perturbed view"))
                 history.append({"op": "setview", "agent": ag, "view": WR.canon(v)})
                 perturbed = True
                 wk.perturbed = True
-            a = WR.gen_action(rng, T, v, types=(["FindData"] * 4 + ["ExfiltrateData"] * 4 + ["BlockIP"] * 2 + ["ScanNetwork", "FindServices", "ExploitService"]) if shared else None)
+            a = forced_fn(T, v) if forced_fn is not None else None
+            if a is None:
+              a = WR.gen_action(rng, T, v, types=(["FindData"] * 4 + ["ExfiltrateData"] * 4 + ["BlockIP"] * 2 + ["ScanNetwork", "FindServices", "ExploitService"]) if shared else None)
             act = WL.to_action(a)
             pre = WL.ref_pre(Wref, v, a)
             before_objs = [(i, copy.deepcopy(o)) for i, o in enumerate(views)]
@@ -235,6 +271,7 @@ def run_walk(rng, name, cfg, objs, focus, n_agents, n_steps, perturb, resets, se
                     wk.hits.append(("C11", "view contains something that does not exist", f"the view reports hosts/services/data that do not exist there: {ghost[:2]} {bad_s[:2]} {bad_d[:2]}",
                                     {"kind": "walk", "scenario": name, "history": list(history)}))
             views[ag] = new_gs
+            told[ag] = copy.deepcopy(WL.impl_view(new_gs))
         return wk
     finally:
         drv.close()
